@@ -125,9 +125,22 @@ def in_section(src, ln):
 
 
 def check_props(spec):
-    """(Re)compile Props.v by hand to capture Print Assumptions; returns (ok, n_theorems, axioms, log)."""
-    d = spec["coq_dir"]
-    props = os.path.join(COQ, d, "Props.v")
+    """All Props files of the spec (default coq/<dir>/Props.v), results merged."""
+    files = spec.get("props", [spec["coq_dir"] + "/Props.v"])
+    tot = dict(ok=True, rc=0, theorems=[], axioms=[], closed=0, missing_print=[], log="", nonexact=[])
+    for f in files:
+        r = check_props_file(os.path.join(COQ, f))
+        tot["ok"] = tot["ok"] and r["ok"]
+        tot["rc"] = tot["rc"] or r["rc"]
+        for k in ("theorems", "axioms", "missing_print", "nonexact"):
+            tot[k] = tot[k] + [x for x in r[k] if x not in tot[k]]
+        tot["closed"] += r["closed"]
+        tot["log"] += r["log"]
+    return tot
+
+
+def check_props_file(props):
+    """(Re)compile one Props file by hand to capture Print Assumptions."""
     src = strip_comments(open(props).read())
     theorems = re.findall(r"^\s*Theorem\s+(\w+)", src, re.M)
     printed = re.findall(r"^\s*Print Assumptions\s+(\w+)\s*\.", src, re.M)
@@ -187,6 +200,20 @@ def run_shards(case_dir):
         for r in ex.map(run_shard, shards):
             res.append(r)
     return res
+
+
+def merge_stats(tot, st, prefix):
+    for k in ("evaluations", "distinct_nontrivial", "model_cases", "shards"):
+        tot[k] = int(tot.get(k, 0)) + int(st.get(k, 0))
+    tot["samples"] = (tot.get("samples", []) + st.get("samples", []))[:8]
+    tot["oracle_failures"] = tot.get("oracle_failures", []) + st.get("oracle_failures", [])
+    tot["rule"] = (tot.get("rule", "") + " | " if tot.get("rule") else "") + ((prefix + ": ") if prefix else "") + st.get("rule", "")
+    dist = tot.setdefault("distribution", {})
+    for k, v in st.get("distribution", {}).items():
+        dist[(prefix + "." if prefix else "") + k] = v
+    for k, v in st.items():
+        if k not in tot:
+            tot[k] = v
 
 
 def load_known():
@@ -277,7 +304,7 @@ def check_locked(pid, tier="quick", seed=None, extra_env=None):
     aud = audit_coq([d] + spec.get("coq_extra_dirs", []))
     if aud:
         broken.append({"kind": "broken-theorem", "what": "audit: forbidden constructs", "log": "\n".join(aud[:20])})
-    obligations = len(pr["theorems"]) if pr["theorems"] else len(re.findall(r"^\s*Theorem\s", open(os.path.join(COQ, d, "Props.v")).read(), re.M))
+    obligations = len(pr["theorems"]) if pr["theorems"] else sum(len(re.findall(r"^\s*Theorem\s", open(os.path.join(COQ, f)).read(), re.M)) for f in spec.get("props", [d + "/Props.v"]))
     discharged = len(pr["theorems"]) if (rc == 0 and pr["ok"] and not extra_ax) else 0
 
     # 2. harness against the current /repo tree
@@ -291,28 +318,32 @@ def check_locked(pid, tier="quick", seed=None, extra_env=None):
         broken.append({"kind": "broken-correspondence", "what": "harness does not build against /repo's current tree", "log": outb[-3000:]})
     else:
         prof = "release" if spec.get("release", False) else "debug"
-        exe = os.path.join(CACHE, "target", prof, spec["bin"])
         sh("rm -rf " + case_dir)
-        os.makedirs(case_dir, exist_ok=True)
-        rch, outh, dt_run = sh([exe, tier, "--out", case_dir] + spec.get("harness_args", []), timeout=spec.get("harness_timeout", 3000), env=env, cwd=ROOT)
-        sp = os.path.join(case_dir, "stats.json")
-        if rch != 0 or not os.path.exists(sp):
-            broken.append({"kind": "broken-correspondence", "what": "harness exited with %d" % rch, "log": outh[-3000:]})
-        else:
-            stats = json.load(open(sp))
+        for b in bins:
+            exe = os.path.join(CACHE, "target", prof, b)
+            bdir = os.path.join(case_dir, b)
+            os.makedirs(bdir, exist_ok=True)
+            rch, outh, dt_run = sh([exe, tier, "--out", bdir] + spec.get("harness_args", []), timeout=spec.get("harness_timeout", 3000), env=env, cwd=ROOT)
+            sp = os.path.join(bdir, "stats.json")
+            if rch != 0 or not os.path.exists(sp):
+                broken.append({"kind": "broken-correspondence", "what": "harness %s exited with %d" % (b, rch), "log": outh[-3000:]})
+                continue
+            st1 = json.load(open(sp))
+            merge_stats(stats, st1, b if len(bins) > 1 else None)
             notes.append(outh.strip()[-400:])
             # 3. model vs implementation
             if rc == 0:
-                shard_results = run_shards(case_dir)
-                for path, idx, err in shard_results:
+                res = run_shards(bdir)
+                shard_results += res
+                for path, idx, err in res:
                     if idx is None:
-                        broken.append({"kind": "broken-correspondence", "what": "shard %s failed to evaluate" % os.path.basename(path), "log": err})
+                        broken.append({"kind": "broken-correspondence", "what": "shard %s/%s failed to evaluate" % (b, os.path.basename(path)), "log": err})
                     elif idx:
-                        for i in idx[:5]:
-                            mism.append({"shard": os.path.basename(path), "index": i, "case": shard_case_text(path, i)})
+                        cs = [{"shard": b + "/" + os.path.basename(path), "index": i, "case": shard_case_text(path, i)} for i in idx[:5]]
+                        mism.extend(cs)
                         broken.append({"kind": "broken-correspondence",
-                                       "what": "model (coq/%s/Model.v) and implementation disagree on %d case(s) of %s" % (d, len(idx), os.path.basename(path)),
-                                       "cases": mism[-5:]})
+                                       "what": "model (coq/%s) and implementation disagree on %d case(s) of %s/%s" % (d, len(idx), b, os.path.basename(path)),
+                                       "cases": cs})
 
     # 4. decide
     known = load_known()
